@@ -7,7 +7,7 @@
    `write_deduped` and is checked on the implementation by the oracle, not stated as a theorem. *)
 From Coq Require Import List NArith.
 From BpafModel Require Import Help Eval.
-From BpafLemmas Require Import HelpItems HelpOrder.
+From BpafLemmas Require Import HelpItems HelpOrder HtmlLaws BalLaws.
 Import ListNotations.
 
 (* `vis p` (Lemmas/HelpItems.v) is the direct specification: the visible leaves of a parser in
@@ -68,6 +68,16 @@ Theorem C12_document_order :
         ++ dblock [] (i_header inf) ++ items ++ dblock [] (i_footer inf).
 Proof. exact render_help_order. Qed.
 Print Assumptions C12_document_order.
+
+(* the help document exists and its blocks are balanced, for every parser definition whose own documents
+   (help texts, group titles, custom usage, description, header, footer: `odok`) are balanced -- the Doc
+   API builds no others: in particular the group loop of write_help_item_groups terminates *)
+Theorem C12_help_document_total_balanced :
+  forall env path o include_env, odok o ->
+  exists d, render_help env path (oinfo_of o) (ometa_of o) (info_meta (oinfo_of o)) include_env = Some d /\
+            bal [] d = true.
+Proof. exact help_document_total_balanced. Qed.
+Print Assumptions C12_help_document_total_balanced.
 
 (* non-vacuity: `-v/--verbose/--loud` (alias), a hidden `--secret`, and `--out=FILE`: the list has
    exactly two entries, with the first names only *)
